@@ -27,18 +27,33 @@ def gen(rng, n):
     def kid():
         return rng.randrange(2, 11) if not rich or rng.random() < .5 else rng.choice(kids)
     ops = []
+    guess = {}          # parent -> children it probably lists (only to aim R / X at existing children; the ops stay a fixed list)
+
+    def listed(p):
+        g = guess.get(p)
+        return rng.choice(g) if g and rng.random() < .75 else kid()
     for _ in range(n):
         p, c, k = par(), kid(), rng.random()
         if k < .3:
             ops.append(('A', p, c))
+            guess.setdefault(p, []).append(c)
         elif k < .42:
             ops.append(('I', p, c, rng.randrange(0, 4)))
+            guess.setdefault(p, []).append(c)
         elif k < .54:
+            c = listed(p)
             ops.append(('R', p, c))
+            if c in guess.get(p, []):
+                guess[p].remove(c)
         elif k < .72:
-            ops.append(('X', p, kid(), c))
+            old = listed(p)
+            ops.append(('X', p, old, c))
+            if old in guess.get(p, []):
+                guess[p].remove(old)
+                guess[p].append(c)
         elif k < .82:
             ops.append(('S', p, c))
+            guess.setdefault(p, []).append(c)
         elif k < .86:
             ops.append(('U', c))
         elif k < .94:
@@ -191,10 +206,9 @@ def model_line(h, mops):
     return 'HEAP %s %s %s' % (nodes, mr, ';'.join(mops))
 
 
-def compare(seed, nhist, nops=12):
-    """run `nhist` random histories on the real code and on the model; returns (stats, disagreements, invariant violations)"""
-    import random
-    rng = random.Random(seed)
+def collect(rng, nhist, nops=12):
+    """run `nhist` random histories on the real code and on the model.
+    returns a list of dicts {history, line, impl: [per-op 'tag dump'], model: [...], mops, inv: [per-op violations]}"""
     hs = [gen(rng, rng.randrange(2, nops + 1)) for _ in range(nhist)]
     res = vlib.pmap(job, hs)
     lines = []
@@ -202,21 +216,38 @@ def compare(seed, nhist, nops=12):
         h['maxreps'] = mr
         lines.append(model_line(h, mops))
     mod = vlib.run_driver(lines)
+    return [{'history': h, 'line': line, 'impl': out, 'model': m.split('|'), 'mops': mops, 'inv': inv}
+            for h, (out, mops, inv, mr), m, line in zip(hs, res, mod, lines)]
+
+
+def parse_dump(d):
+    """'kids/par/tp/tidx;...' -> list of (kids, parent, tparent, tidx)"""
+    out = []
+    for n in d.split(';'):
+        k, p, t, x = n.split('/')
+        out.append(([int(i) for i in k.split(',') if i], None if p == '-' else int(p), None if t == '-' else int(t),
+                    [int(i) for i in x.split(',') if i]))
+    return out
+
+
+def compare(seed, nhist, nops=12):
+    import random
+    runs = collect(random.Random(seed), nhist, nops)
     dis, bad, stats = [], [], {'histories': nhist, 'ops': 0, 'tags': {}, 'kinds': {}}
-    for h, (out, mops, inv, mr), m, line in zip(hs, res, mod, lines):
+    for r in runs:
+        h, out, mo, mops = r['history'], r['impl'], r['model'], r['mops']
         if out and out[0].startswith('HARNESS'):
             dis.append({'history': h, 'harness_error': out[0]})
             continue
-        mo = m.split('|')
         for i, o in enumerate(out):
             stats['ops'] += 1
             stats['tags'][o.split(' ')[0]] = stats['tags'].get(o.split(' ')[0], 0) + 1
             stats['kinds'][h['ops'][i][0]] = stats['kinds'].get(h['ops'][i][0], 0) + 1
         if mo != out:
             k = next((i for i in range(min(len(mo), len(out))) if mo[i] != out[i]), min(len(mo), len(out)))
-            dis.append({'history': h, 'line': line, 'step': k, 'op': mops[k] if k < len(mops) else None,
+            dis.append({'history': h, 'line': r['line'], 'step': k, 'op': mops[k] if k < len(mops) else None,
                         'impl': out[k] if k < len(out) else None, 'model': mo[k] if k < len(mo) else None})
-        for i, b in enumerate(inv):
+        for i, b in enumerate(r['inv']):
             if b:
                 bad.append({'history': h, 'step': i, 'op': mops[i] if i < len(mops) else None, 'violations': b})
                 break
